@@ -41,7 +41,7 @@ def PTab.alloc (t : PTab) (r : PRec) : PTab × Nat :=
   else
     let n := growP t.slots.length
     let slots := t.slots ++ List.replicate (n - t.slots.length) none
-    ({ slots := slots.set t.count (some r), firstFree := t.firstFree, count := t.count + 1 }, t.count)
+    ({ slots := slots.set t.count (some r), firstFree := t.count + 1, count := t.count + 1 }, t.count)
 
 /-- `_vnacal_get_parameter`: the handle names a live, not deleted parameter -/
 def PTab.valid (t : PTab) (h : Int) : Bool :=
@@ -139,5 +139,11 @@ def calEnd : List (Option String) → Nat
   | s => match s.reverse.dropWhile (· == none) with
     | [] => 0
     | l => l.length
+
+/-- what `vnacal_save` iterates over: the live names in index order -/
+def saveList (slots : List (Option String)) : List String := slots.filterMap id
+
+/-- what `vnacal_load` builds: the saved calibrations added one by one -/
+def loadList (names : List String) : List (Option String) := names.foldl (fun s n => (addCal s n).1) []
 
 end Libvna.CT
